@@ -90,8 +90,15 @@ samples = []
 nruns = 0
 ntraces_ok = 0
 nontrivial = set()
-exe, log = ck.build_cpp("c04_shim", ["harness/C04/ps5_harness.cpp"], repo_sources=REPO_SRCS,
-                        extra=["-DUSE_SHIM", "-include", os.path.join(verif.VERIF, "harness", "sched", "verif_sched.hpp")], timeout=1500)
+import concurrent.futures
+with concurrent.futures.ThreadPoolExecutor(max_workers=2) as ex:
+    f1 = ex.submit(ck.build_cpp, "c04_shim", ["harness/C04/ps5_harness.cpp"], None, REPO_SRCS,
+                   ["-DUSE_SHIM", "-include", os.path.join(verif.VERIF, "harness", "sched", "verif_sched.hpp")], 1500)
+    # free-running real threads under ThreadSanitizer (data races are outside the Coq model: run-time evidence)
+    f2 = ex.submit(ck.build_cpp, "c04_tsan", ["harness/C04/ps5_harness.cpp"],
+                   ["-std=c++17", "-O1", "-g", "-fsanitize=thread", "-DTLX_HAVE_THREAD_SANITIZER=1"], REPO_SRCS, [], 1500)
+    exe, log = f1.result()
+    exe_tsan, log_tsan = f2.result()
 drv, dlog = ck.ocaml_driver("C04")
 
 def translate(pt):
@@ -190,6 +197,42 @@ else:
         for (cid, r, pt) in meta[:2] + meta[len(meta) // 2: len(meta) // 2 + 1]:
             samples.append({"case": case_by_id.get(cid, "")[:300], "schedule_index": int(r), "protocol_trace": pt[:400]})
 
+# ---- free-running real threads under ThreadSanitizer: tiny thresholds, all hardware threads
+tsan_runs = 0
+if ck.violations == 0 and exe is not None:
+    if exe_tsan is None:
+        ck.violation("ThreadSanitizer harness does not compile", {"correspondence": "harness/C04/ps5_harness.cpp (-fsanitize=thread)", "log": log_tsan[-2000:]}, no_input=True)
+    else:
+        tcases = []
+        NT = 60 if ck.thorough() else 14
+        for k in range(NT):
+            kind = KINDS[k % len(KINDS)]
+            n = rng.choice([150, 400, 900, 2500])
+            strs = gen_strings(rng, kind, n)
+            tcases.append("ts%d_%s %s 0 %d %s %d 1 %s" % (k, kind, rng.choice(["T", "U", "V"]), k % 2, rng.choice(["c", "s"]), 3 if ck.thorough() else 2, ",".join(hx(x) for x in strs) if strs else "-"))
+        tf = os.path.join(ck.scratch, "tsan_cases.txt"); open(tf, "w").write("\n".join(tcases) + "\n")
+        rct, outt = verif.sh([exe_tsan, tf], timeout=2400, env=dict(os.environ, TSAN_OPTIONS="halt_on_error=0 report_signal_unsafe=0 history_size=4"))
+        tsan_runs = sum(1 for l in outt.splitlines() if l.startswith("R "))
+        for l in outt.splitlines():
+            if l.startswith("R "):
+                head = l.partition(" PT ")[0].split(None, 3)
+                if len(head) == 4 and head[3].startswith("FAIL "):
+                    found = True
+                    ck.violation("free-running run (real threads, TSan build) violates the property: %s %s" % (head[1], head[3]),
+                                 {"case": next((c for c in tcases if c.startswith(head[1] + " ")), None), "verdict": head[3]})
+        if "WARNING: ThreadSanitizer" in outt:
+            found = True
+            i = outt.find("WARNING: ThreadSanitizer")
+            # the case running when the first report appeared = the next "R <id>" line after it
+            after = [l for l in outt[i:].splitlines() if l.startswith("R ")]
+            cid = after[0].split()[1] if after else None
+            ck.violation("ThreadSanitizer reports a data race in the parallel string sort (real threads, tiny thresholds)",
+                         {"case": next((c for c in tcases if cid and c.startswith(cid + " ")), tcases[0] if tcases else None),
+                          "report": outt[i:i + 3500], "replay_cmd": "build harness/C04/ps5_harness.cpp with -fsanitize=thread and run it on the case line"})
+        elif rct != 0 and ck.violations == 0:
+            found = True
+            ck.violation("TSan harness crashed (rc=%d)" % rct, {"log_tail": outt[-3000:]})
+
 # ---- thorough: free-running real threads, default parameters, large inputs
 big_runs = 0
 if ck.thorough() and ck.violations == 0 and exe is not None:
@@ -221,7 +264,8 @@ if pr is not None and not pr["ok"]:
     ck.proof_broken(found)
 
 ck.finish({
-    "evaluations": nruns + big_runs,
+    "evaluations": nruns + big_runs + tsan_runs,
+    "tsan_runs": tsan_runs,
     "distinct_nontrivial": len(nontrivial),
     "traces_validated_against_impl": ntraces_ok,
     "rule": "cases = string multisets of 8 kinds (all-equal short/long, two-valued, bucket-degenerate, small alphabet, prefix chains, high bytes, random) x parameter sets {tiny TreeBits 2, tiny unroll TreeBits 3, default} x workers 1..4 x with/without LCP x {unsigned char**, std::string*}; each run under the deterministic scheduler with a different schedule; non-trivial = distinct protocol traces longer than 12 events (several steps). Every run: result checked (sorted / permutation of objects / exact LCP), protocol trace accepted by the extracted Coq lstep and ending all-dead.",
@@ -230,6 +274,6 @@ ck.finish({
 }, assumptions=[
     "hook events (TLX_VERIF) are emitted immediately before the action they announce; 'done' immediately before the decrement",
     "the model is thread-agnostic: any thread may execute any enabled event (over-approximates the real interleavings)",
-    "data races / weak memory are outside the model: atomics are sequentially consistent under the shim; TSan not part of the quick tier",
+    "data races / weak memory are outside the Coq model (atomics are sequentially consistent under the shim); they are covered at run time by a ThreadSanitizer build of the same harness with real threads (both tiers)",
     "sampling RNG is seeded by an address: splitters are arbitrary; results are checked, not compared with a model",
 ])
